@@ -109,6 +109,27 @@ class Prop:
                 seqs.append(('gen%d' % i, [l for p_ in parts for l in p_]))
             else:
                 seqs.append(('gen%d' % i, gen.random_interleaving(rng, parts)))
+        # the delicate neighbours, always: a message with sequence id 0 and one without sequence id in flight on the
+        # same channel (two different reassembly slots), in every interleaving pattern, with a wrapper in front
+        for i in range(12 if ctx.tier == 'quick' else 200):
+            chan = 'AB'[i % 2]
+            sets = []
+            for seq in ('0', ''):
+                n = rng.randint(2, 3)
+                bits = gen.payload_bits(rng, 'MessageType8', length=rng.randint(150, 500))
+                payload, _ = gen.armor(bits)
+                sets.append(gen.render(bits, seq=seq, chan=chan, cuts=sorted(rng.sample(range(1, len(payload)), n - 1))))
+            if i % 3 == 2:
+                sets.append(gen.render(gen.payload_bits(rng, 'MessageType5'), seq=str(rng.randint(1, 9)), chan=chan, cuts=[30]))
+            if i % 4 == 1:
+                sets.append([gen.gatehouse(d=rng.choice([1, 28]))])
+            if i < 4:
+                a, b = sets[0], sets[1]
+                lines = [[a[0], b[0]] + a[1:] + b[1:], [b[0], a[0]] + b[1:] + a[1:], [a[0], b[0]] + b[1:] + a[1:],
+                         [b[0], a[0]] + a[1:] + b[1:]][i] + [x for s_ in sets[2:] for x in s_]
+            else:
+                lines = gen.random_interleaving(rng, sets)
+            seqs.append(('zero-vs-empty%d' % i, lines))
         # slot histories: several fragment sets one after the other in ONE (sequence id, channel) slot, some of
         # them incomplete (the receiver missed fragments), so that leftovers of earlier sets are still around when a
         # later set of another size arrives; all front-ends must agree on every later delivery
